@@ -627,6 +627,17 @@ class HashRule(ABC):
                 "No hash rules matched.".format(symbol, src_fn.__name__, symbol_part)
             )
 
+        if not any(x is ref for x in blacklist):
+            # Nothing Memento can hash stands behind this symbol (a module, a class, an
+            # instance, a value the codec cannot describe). It does not take part in the
+            # version, but remember what it was, so that re-binding the symbol to something
+            # that does take part is noticed.
+            result.add(
+                OpaqueSymbolHashRule(
+                    parent_symbol, symbol_part, resolver, ref, first_level
+                )
+            )
+
     @abstractmethod
     def clone(self) -> "HashRule":
         pass
@@ -723,6 +734,58 @@ class UndefinedSymbolHashRule(HashRule):
         return "UndefinedSymbolHashRule(parent_symbol={parent_symbol}, symbol={symbol})".format(
             parent_symbol=repr(self.parent_symbol), symbol=repr(self.symbol)
         )
+
+
+class OpaqueSymbolHashRule(HashRule):
+    """
+    Hash rule for a symbol bound to something that Memento cannot hash. Like an undefined
+    symbol it does not impact the hash; it only notices when the symbol is bound to another
+    object, which may be one that does.
+
+    """
+
+    # No try_resolve for OpaqueSymbolHashRule: it is what remains when no other rule matched
+
+    def __init__(
+        self,
+        parent_symbol: str,
+        symbol: str,
+        resolver: Callable,
+        ref: object,
+        first_level: bool,
+    ):
+        super().__init__(
+            key="OpaqueSymbol;{};{}".format(parent_symbol, symbol),
+            parent_symbol=parent_symbol,
+            symbol=symbol,
+            first_level=first_level,
+        )
+        self.resolver = resolver
+        self.ref = ref
+
+    def clone(self) -> HashRule:
+        return OpaqueSymbolHashRule(
+            self.parent_symbol, self.symbol, self.resolver, self.ref, self.first_level
+        )
+
+    def collect_transitive_dependencies(
+        self,
+        result: Set[HashRule],
+        root_fn: MementoFunctionType,
+        package_scope: Set[str],
+        blacklist: List[object],
+    ):
+        # Nothing is known about the object, so nothing beneath it either
+        pass
+
+    def compute_hash(self) -> Optional[str]:
+        return None
+
+    def did_change(self) -> bool:
+        return self.resolver() is not self.ref
+
+    def __repr__(self):
+        return f"OpaqueSymbolHashRule(key={repr(self.key)})"
 
 
 class MementoFunctionHashRule(HashRule):
